@@ -15,6 +15,7 @@ import (
 	"strings"
 	"sync"
 	"testing"
+	"time"
 
 	"github.com/megaease/easegress/pkg/context"
 	"github.com/megaease/easegress/pkg/filters"
@@ -27,12 +28,26 @@ import (
 
 func init() { logger.InitNop() }
 
+type c11PxGate struct {
+	arrived chan struct{}
+	release chan struct{}
+	done    chan [2]string // panic text, site
+}
+
+var c11PxGates sync.Map // request id -> *c11PxGate
+
 var c11PxBackendOnce sync.Once
 var c11PxBackend *httptest.Server
 
 func c11PxGetBackend() *httptest.Server {
 	c11PxBackendOnce.Do(func() {
 		c11PxBackend = httptest.NewServer(http.HandlerFunc(func(w http.ResponseWriter, r *http.Request) {
+			// schedule replay: the call is in flight until the controller lets the backend answer
+			if v, ok := c11PxGates.Load(r.Header.Get("X-C11-Req")); ok {
+				g := v.(*c11PxGate)
+				g.arrived <- struct{}{}
+				<-g.release
+			}
 			w.WriteHeader(200)
 			w.Write([]byte("ok"))
 		}))
@@ -77,7 +92,9 @@ func c11PxSite(stack string) string {
 }
 
 // c11PxHandle runs one request through the filter instance; returns "" or the panic.
-func c11PxHandle(f *Proxy) (result string, panicV string, site string) {
+func c11PxHandle(f *Proxy) (result string, panicV string, site string) { return c11PxHandleID(f, "") }
+
+func c11PxHandleID(f *Proxy, id string) (result string, panicV string, site string) {
 	defer func() {
 		if e := recover(); e != nil {
 			panicV = fmt.Sprint(e)
@@ -85,6 +102,9 @@ func c11PxHandle(f *Proxy) (result string, panicV string, site string) {
 		}
 	}()
 	stdr := httptest.NewRequest(http.MethodGet, "http://c11.test/x", http.NoBody)
+	if id != "" {
+		stdr.Header.Set("X-C11-Req", id)
+	}
 	req, _ := httpprot.NewRequest(stdr)
 	req.FetchPayload(0)
 	ctx := context.New(tracing.NoopSpan)
@@ -145,6 +165,7 @@ func TestVerifC11PxReplay(t *testing.T) {
 		held := map[string]*Proxy{}
 		tgs := map[string]string{}
 		failed := map[string]bool{}
+		gates := map[string]*c11PxGate{}
 		var next, removed *Proxy
 		pend := 0
 		for si, st := range beh {
@@ -161,20 +182,60 @@ func TestVerifC11PxReplay(t *testing.T) {
 					bad = fmt.Sprintf("harness map out of step with the model for %s", tgs[r])
 				}
 				held[r] = h
-			case "run":
-				_, pv, site := c11PxHandle(held[r])
-				failed[r] = pv != ""
-				if pv != "" {
-					out.Raw(vx.M{"k": "fail", "b": bi, "step": si, "r": r, "site": site, "panic": pv, "at": st, "behaviour": beh[:si+1]})
+			case "enter":
+				// Handle starts and stays in flight at the backend
+				id := fmt.Sprintf("b%d-%s-%d", bi, r, si)
+				g := &c11PxGate{arrived: make(chan struct{}, 1), release: make(chan struct{}, 1), done: make(chan [2]string, 1)}
+				c11PxGates.Store(id, g)
+				gates[r] = g
+				h := held[r]
+				go func() {
+					_, pv, site := c11PxHandleID(h, id)
+					g.done <- [2]string{pv, site}
+				}()
+				select {
+				case <-g.arrived:
+					if !vx.Bool(st["ok"]) {
+						// the model says the call may fail before reaching the backend; it did not: let it finish
+						g.release <- struct{}{}
+						res := <-g.done
+						failed[r] = res[0] != ""
+						gates[r] = nil
+					}
+				case res := <-g.done:
+					gates[r] = nil
+					failed[r] = res[0] != ""
+					if res[0] != "" {
+						out.Raw(vx.M{"k": "fail", "b": bi, "step": si, "r": r, "site": res[1], "panic": res[0], "at": st, "behaviour": beh[:si+1]})
+					}
+					if vx.Bool(st["ok"]) {
+						bad = fmt.Sprintf("panic: Handle on the held generation (version %d) ended before reaching the backend: %s (%s)", vx.Int(st["ver"]), res[0], res[1])
+					}
+				case <-time.After(60 * time.Second):
+					bad = "harness: stuck waiting for the backend"
 				}
-				if vx.Bool(st["ok"]) && pv != "" {
-					bad = fmt.Sprintf("panic: Handle on the held generation (version %d): panic in %s: %s", vx.Int(st["ver"]), site, pv)
-				} else if !vx.Bool(st["ok"]) && pv == "" {
-					bad = "model (implementation-shaped) predicts a failure, real Handle succeeded"
+			case "exit":
+				g := gates[r]
+				if g == nil {
+					break
 				}
+				g.release <- struct{}{}
+				select {
+				case res := <-g.done:
+					failed[r] = res[0] != ""
+					if res[0] != "" {
+						out.Raw(vx.M{"k": "fail", "b": bi, "step": si, "r": r, "site": res[1], "panic": res[0], "at": st, "behaviour": beh[:si+1]})
+						if vx.Bool(st["ok"]) {
+							bad = fmt.Sprintf("panic: the in-flight call of the held generation (version %d) failed: %s (%s)", vx.Int(st["ver"]), res[0], res[1])
+						}
+					}
+				case <-time.After(60 * time.Second):
+					bad = "harness: stuck waiting for Handle to return"
+				}
+				gates[r] = nil
 			case "done":
-				if (vx.Str(st["st"]) == "fail") != failed[r] {
-					bad = fmt.Sprintf("status: request failed=%v, model says %s", failed[r], vx.Str(st["st"]))
+				if vx.Str(st["st"]) != "fail" && failed[r] {
+					bad = fmt.Sprintf("status: request failed, model says %s", vx.Str(st["st"]))
 				}
 			case "pipBegin", "createInit":
 				pend = vx.Int(st["ver"])
@@ -199,8 +260,19 @@ func TestVerifC11PxReplay(t *testing.T) {
 			}
 			if bad != "" {
 				mism++
+				for _, g := range gates {
+					if g != nil {
+						g.release <- struct{}{}
+					}
+				}
 				out.Raw(vx.M{"k": "mismatch", "b": bi, "step": si, "a": vx.Str(st["a"]), "at": st, "what": bad, "behaviour": beh[:si+1]})
+				gates = map[string]*c11PxGate{}
 				break
+			}
+		}
+		for _, g := range gates { // calls still in flight when the schedule ends
+			if g != nil {
+				g.release <- struct{}{}
 			}
 		}
 	}
